@@ -280,6 +280,25 @@ class CFG:
             if self.may_raise(st) or isinstance(st, ast.Delete):
                 self._exc(s)
             return s
+        if hasattr(ast, "Match") and isinstance(st, ast.Match):
+            # the subject is evaluated once; each case is an alternative whose pattern is opaque (it may bind names and
+            # call __eq__/__match_args__ of user classes: treated as may-raise); no case may match
+            subj = self._new("stmt", ast.copy_location(ast.Expr(value=st.subject), st))
+            self._edge(cur, subj)
+            self._exc(subj)
+            after = self._new("join")
+            irrefutable = False
+            for case in st.cases:
+                entry = self._new("join")
+                self._edge(subj, entry)
+                end = self._seq(case.body, entry)
+                if end is not None:
+                    self._edge(end, after)
+                if case.guard is None and isinstance(case.pattern, ast.MatchAs) and case.pattern.pattern is None:
+                    irrefutable = True
+            if not irrefutable:
+                self._edge(subj, after)
+            return after if after.pred else None
         raise AnalysisError("unsupported statement kind %s at line %s" % (type(st).__name__, getattr(st, "lineno", "?")))
 
     def _try(self, st, cur):
